@@ -1,4 +1,4 @@
 From Coq Require Extraction.
 From Coq Require Import ExtrOcamlBasic.
 From Verif.C17 Require Import Model.
-Extraction "c17_ext.ml" trace0 digest0 clean0 trace step run final sys0 fal0 cont0.
+Extraction "c17_ext.ml" trace0 digest0 clean0 noret0 trace step run final sys0 fal0 cont0.
